@@ -45,7 +45,7 @@ class Shared(torch.nn.Module):
     def __init__(self, seed):
         super().__init__()
         g = torch.Generator().manual_seed(3 + seed)
-        if VARIANT == "plain":
+        if VARIANT in ("plain", "bn_train"):
             self.net = torch.nn.Sequential(
                 torch.nn.Conv1d(4, 3, 3, padding=1), torch.nn.BatchNorm1d(3), torch.nn.ReLU(), torch.nn.Dropout(0.5), torch.nn.MaxPool1d(2),
                 torch.nn.Flatten(), torch.nn.Linear(3 * (L // 2), 4), torch.nn.ReLU(), torch.nn.Linear(4, 2)).double()
@@ -68,6 +68,11 @@ class Shared(torch.nn.Module):
         # training mode (fine-tuning with frozen statistics), and a user forward hook on an activation
         self.train()
         bn.eval()
+        if VARIANT == "bn_train":
+            # the other way round: model switched to eval, BatchNorm put back into training mode (adapting its statistics): the calls
+            # evaluate in evaluation mode whatever they are handed, so the running statistics must come back unchanged
+            self.eval()
+            bn.train()
         act = [m for m in self.net.modules() if isinstance(m, torch.nn.ReLU)][0]
         act.register_forward_hook(_user_hook)
 
@@ -227,6 +232,8 @@ def canon(model, seed):
     rg = tuple(p.requires_grad for p in model.parameters())
     # modules the caller keeps in eval mode must not be switched (back) to training mode; the user's hook must survive
     frozen = tuple(n for n, m in model.named_modules() if isinstance(m, torch.nn.BatchNorm1d) and m.training)
+    if VARIANT == "bn_train":
+        frozen = ()       # switching a training-mode module to eval is what the calls document; only the reverse is a leak
     user_hooks = tuple(n for n, m in model.named_modules() if any(h is _user_hook for h in m._forward_hooks.values()))
     rg = (rg, ("eval_module_switched_to_training", frozen), ("user_hook_on", user_hooks))
     probe = []
@@ -266,7 +273,8 @@ def bound(tier):
 
 def shards(tier, seed):
     return [dict(name="crash_points_and_bfs", kind="bfs", variant="plain", weight=100),
-            dict(name="crash_points_and_bfs/shared_activation_object", kind="bfs", variant="shared_act", weight=100)] + \
+            dict(name="crash_points_and_bfs/shared_activation_object", kind="bfs", variant="shared_act", weight=100),
+            dict(name="crash_points_and_bfs/batchnorm_in_training_mode", kind="bfs", variant="bn_train", weight=100)] + \
            [dict(name="differential/%d" % p, kind="diff", part=p, parts=12, variant="plain", weight=300) for p in range(12)] + \
            [dict(name="differential_shared_act/%d" % p, kind="diff", part=p, parts=3, variant="shared_act", weight=300) for p in range(3)]
 
